@@ -12,6 +12,7 @@ import (
 	"os"
 	"os/exec"
 	"strings"
+	"sync"
 	"time"
 
 	"github.com/btcsuite/btcutil/base58"
@@ -218,6 +219,11 @@ type workReq struct {
 	Via  string          `json:"via"`
 	Late int             `json:"late_ms"`       // api call: the first answer arrives this long after the request
 	Raw  []byte          `json:"raw,omitempty"` // a transport frame (any bytes)
+	// Burst: the message is delivered this many times at once (duplicated delivery racing with the waiting call)
+	Burst int `json:"burst,omitempty"`
+	// InSend: the message is the peer's answer delivered this many times while the agent's outbound send of the request
+	// has not returned yet
+	InSend int `json:"in_send,omitempty"`
 }
 
 type nullTransport struct{}
@@ -225,10 +231,27 @@ type nullTransport struct{}
 var sentCh = make(chan []byte, 1024)
 
 func (nullTransport) Start(transport.Provider) error { return nil }
+
+// sendHook, when set, is called inside Send: a peer that answers while the agent's send is still in progress (return
+// route on the same socket, a fast router).
+var (
+	sendHook   func([]byte)
+	sendHookMu sync.Mutex
+)
+
 func (nullTransport) Send(data []byte, _ *service.Destination) (string, error) {
 	select {
 	case sentCh <- data:
 	default:
+	}
+
+	sendHookMu.Lock()
+	h := sendHook
+	sendHook = nil
+	sendHookMu.Unlock()
+
+	if h != nil {
+		h(data)
 	}
 
 	return "", nil
@@ -788,6 +811,34 @@ func (t *target) dispatch(req workReq, raw []byte) {
 	switch {
 	case req.Via == "oobv2-accept":
 		t.acceptOOBv2(raw)
+	case strings.HasPrefix(req.Via, "api:") && req.InSend > 0:
+		n := req.InSend
+
+		sendHookMu.Lock()
+		sendHook = func(packed []byte) {
+			env, err := t.ctx.Packager().UnpackMessage(packed)
+			if err != nil {
+				return
+			}
+
+			var rq struct {
+				ID string `json:"@id"`
+			}
+
+			if json.Unmarshal(env.Message, &rq) != nil || rq.ID == "" {
+				return
+			}
+
+			for i := 0; i < n; i++ {
+				t.deliver(bytes.ReplaceAll(raw, []byte("@REQID@"), []byte(rq.ID)), true)
+			}
+
+			time.Sleep(100 * time.Millisecond) //nolint:gomnd // the handlers reach the point where they hand the answer over
+		}
+		sendHookMu.Unlock()
+
+		t.apiCall(strings.TrimPrefix(req.Via, "api:"))
+		time.Sleep(150 * time.Millisecond) //nolint:gomnd
 	case strings.HasPrefix(req.Via, "api:"):
 		t.apiCall(strings.TrimPrefix(req.Via, "api:"))
 
@@ -795,7 +846,30 @@ func (t *target) dispatch(req workReq, raw []byte) {
 			time.Sleep(time.Duration(req.Late) * time.Millisecond)
 		}
 
-		t.deliver(bytes.ReplaceAll(raw, []byte("@REQID@"), []byte(t.lastReq)), true)
+		answer := bytes.ReplaceAll(raw, []byte("@REQID@"), []byte(t.lastReq))
+
+		if req.Burst > 1 {
+			var wg sync.WaitGroup
+
+			start := make(chan struct{})
+
+			for i := 0; i < req.Burst; i++ {
+				wg.Add(1)
+
+				go func() {
+					defer wg.Done()
+					<-start
+					t.deliver(answer, true)
+				}()
+			}
+
+			close(start)
+			wg.Wait()
+
+			return
+		}
+
+		t.deliver(answer, true)
 	case req.Via == "reply":
 		t.deliver(bytes.ReplaceAll(raw, []byte("@REQID@"), []byte(t.lastReq)), true)
 	case req.Via == "ws-frame":
@@ -964,6 +1038,15 @@ func runBatch(items []protoItem, quiesce int) batchResult {
 
 				wr := workReq{Op: "msg", ID: i, Msg: m, Conn: it.pc.Conn, Wait: wait,
 					Inv: "P" + it.uniq, Alt: "T" + it.uniq, Via: via, Late: late}
+				switch it.pc.Reply {
+				case "burst":
+					wr.Burst = 6
+				case "in-send":
+					wr.InSend = 1
+				case "in-send-twice":
+					wr.InSend = 2
+				}
+
 				if via == "ws-frame" {
 					wr.Msg, wr.Raw, wr.Wait = json.RawMessage("null"), m, 5
 				}
@@ -1152,21 +1235,21 @@ func (r *runner) protoItems() []protoItem {
 		muts := append([]Mut{{Path: "", Name: "seed", Tree: tree}}, closure(tree)...)
 
 		for mi, m := range muts {
-			replies := []string{"once", "twice", "then-seed", "seed-then"}
+			replies := []string{"once", "twice", "then-seed", "seed-then", "burst", "in-send-twice"}
 			if m.Name == "seed" {
-				replies = []string{"once", "twice", "late", "late-twice"}
+				replies = []string{"once", "twice", "burst", "in-send", "in-send-twice", "late", "late-twice"}
 
 				if r.tier != "thorough" {
 					// quick tier: the answers after the call's 10 s timeout only for the two calls that register a
 					// channel under the request id
-					replies = []string{"once", "twice"} // answers after the call's 10 s timeout: thorough tier
+					replies = []string{"once", "twice", "burst", "in-send", "in-send-twice"} // late answers: thorough tier
 				}
 			} else if r.tier != "thorough" {
 				if (mi+int(r.seed))%3 != 0 && m.Name != "null" && m.Name != "arr-null" && m.Name != "str-x" {
 					continue
 				}
 
-				replies = replies[mi%4 : mi%4+1]
+				replies = replies[mi%6 : mi%6+1]
 			}
 
 			for _, rp := range replies {
@@ -1210,7 +1293,7 @@ func (r *runner) protoItems() []protoItem {
 				continue
 			}
 
-			obj["~transport"] = map[string]interface{}{"return_route": "all"}
+			obj["~transport"] = map[string]interface{}{"~return_route": "all"}
 
 			wb, _ := json.Marshal(obj) //nolint:errcheck
 
@@ -1634,6 +1717,10 @@ func replySeq(rp string, wire, seedWire []byte) ([][]byte, bool) {
 		return [][]byte{wire, seedWire}, false
 	case "seed-then":
 		return [][]byte{seedWire, wire}, false
+	case "in-send", "in-send-twice": // answered while the agent's send of the request is still in progress
+		return [][]byte{wire}, false
+	case "burst": // the same answer several times at once, while the call is still waiting (see workReq.Burst)
+		return [][]byte{wire}, false
 	case "late": // the call has given up when the answer arrives
 		return [][]byte{wire}, true
 	case "late-twice":
@@ -1691,7 +1778,7 @@ func buildItem(pc ProtoCase) (protoItem, bool) {
 			return protoItem{}, false
 		}
 
-		obj["~transport"] = map[string]interface{}{"return_route": "all"}
+		obj["~transport"] = map[string]interface{}{"~return_route": "all"}
 
 		wb, _ := json.Marshal(obj) //nolint:errcheck
 
